@@ -1,5 +1,5 @@
 (** C01 - Every task gets exactly one terminal outcome, reported once, in order. *)
-From HQ Require Import Base.Prelude Cluster.Types Cluster.Core Cluster.Reactor Cluster.Worker Cluster.Server Cluster.Sys Cluster.Monitors Cluster.ProofsJob Cluster.ProofsCore Cluster.ProofsMore Cluster.ProofsTerminal Cluster.ProofsStep Cluster.ProofsFinal Cluster.BijBase Cluster.ProofsOnce Cluster.RejHyp Cluster.BijFinal Cluster.StartFinBase Cluster.StartFin Cluster.StartFin2Base Cluster.StartFin2.
+From HQ Require Import Base.Prelude Cluster.Types Cluster.Core Cluster.Reactor Cluster.Worker Cluster.Server Cluster.Sys Cluster.Monitors Cluster.ProofsJob Cluster.ProofsCore Cluster.ProofsMore Cluster.ProofsTerminal Cluster.ProofsStep Cluster.ProofsFinal Cluster.BijBase Cluster.ProofsOnce Cluster.RejHyp Cluster.BijFinal Cluster.StartFinBase Cluster.StartFin Cluster.StartFin2Base Cluster.StartFin2 Cluster.NoPanicU0 Cluster.ExecU19.
 From Coq Require Import ZArith.
 Local Open Scope N_scope.
 
@@ -106,6 +106,19 @@ Definition C01_fas2_example := fas2_example.
 Definition C01_failed_without_start_launch := failed_needs_start_refuted_launch.
 Definition C01_failed_without_start_crash_mn := failed_needs_start_refuted_crash_mn.
 
+(** "Finished means it ran", worker half: whatever a connected worker process runs, or reports as
+    finished / failed with kind FTask / FTimeLimit (the message is still in its channel, hence also
+    at the moment the server takes it), that same process launched successfully before - and the
+    worker was not lost in between (it is still connected).  Not proved: that the server emits
+    TaskFinished only while processing such a message (the link events <-> messages). *)
+Theorem C01_reported_means_ran_partial : forall ops reserve maxfill s outs,
+  Forall op_wf ops -> ops_ok (init_sys reserve maxfill) ops = true -> run (init_sys reserve maxfill) ops = Ok (s, outs) ->
+  forall p x us, In p (s_procs s) ->
+    (run_find (p_running p) x <> None \/
+     (In (UUpdates us) (p_up p) /\ (In (UFinished x) us \/ In (UFailed x FTask) us \/ In (UFailed x FTimeLimit) us))) ->
+    exists a l b, outs = a ++ OLaunch l :: b /\ l_w l = p_id p /\ l_t l = x /\ l_ok l = true.
+Proof. exact reported_means_ran_partial. Qed.
+
 Print Assumptions C01_terminal_event_once.
 Print Assumptions C01_terminal_event_example.
 Print Assumptions C01_outcome_final_system.
@@ -121,3 +134,4 @@ Print Assumptions C01_fas_example.
 Print Assumptions C01_fas2_example.
 Print Assumptions C01_failed_without_start_launch.
 Print Assumptions C01_failed_without_start_crash_mn.
+Print Assumptions C01_reported_means_ran_partial.
